@@ -12,7 +12,7 @@ struct evp_md_st { int bits; };			/* EVP_MD: 256 / 384 / 512, 0 for the null dig
 struct evp_pkey_ctx_st { EVP_PKEY *pkey; int padding; int saltlen; };
 struct evp_md_ctx_st { const EVP_MD *md; EVP_PKEY *pkey; EVP_PKEY_CTX *pctx; int mode; size_t maxsig; };
 struct bignum_st { const unsigned char *src; int len; int nbytes; };	/* value read from src[0..len); nbytes = minimal length */
-struct ECDSA_SIG_st { BIGNUM *r, *s; int derlen; };
+struct ECDSA_SIG_st { BIGNUM *r, *s; int derlen; int released; /* ghost: ECDSA_SIG_free was called on it */ };
 /* ghost: the DER buffer written by the last i2d_ECDSA_SIG and the signature object it came from */
 extern const void *g_der_buf; extern const ECDSA_SIG *g_der_sig;
 extern int g_lib_fail; extern unsigned g_ver_calls;
